@@ -62,6 +62,14 @@ fn parse_ifdata_from_spec(
 ) -> Option<GenericIfData> {
     let pos = parser.get_tokenpos();
     if let Ok(ifdata) = parse_ifdata_item(parser, context, spec) {
+        // comments between the last item and the /end of the IF_DATA are not content
+        while let Some(A2lToken {
+            ttype: A2lTokenType::Comment,
+            ..
+        }) = parser.peek_token()
+        {
+            let _ = parser.get_token(context);
+        }
         if let Some(A2lToken {
             ttype: A2lTokenType::End,
             ..
@@ -481,9 +489,13 @@ fn parse_unknown_taggedstruct(
         parser.get_token(context)?;
     }
 
-    while let Ok(BlockContent::Block(token, is_block, start_offset)) =
-        parser.get_next_tag_or_comment(context)
-    {
+    while let Ok(blockcontent) = parser.get_next_tag_or_comment(context) {
+        let (token, is_block, start_offset) = match blockcontent {
+            BlockContent::Block(token, is_block, start_offset) => (token, is_block, start_offset),
+            // comments between the items of the taggedstruct are skipped
+            BlockContent::Comment(..) => continue,
+            BlockContent::None => break,
+        };
         let uid = parser.get_next_id();
         let tag = parser.get_token_text(token);
         let newcontext = ParseContext::from_token(tag, token);
